@@ -670,4 +670,73 @@ theorem linv2_runFrom : ∀ (as : List Act) (l : LSt), LInv l → LInv2 l → Ru
 theorem linv2_init (keyOf) : LInv2 (linit keyOf) := ⟨List.Pairwise.nil, by simp [linit, callers], by simp [linit]⟩
 
 
+/-! ### the SetMap / GetMap entries of the linearization are the executed calls -/
+
+theorem filterMap_gets_nil (f : LinOp → Option (K → Option V)) (hf : ∀ t k r, f (.get t k r) = none) (τ : Nat) (k : K) (r : R) :
+    ∀ ws : List Nat, (ws.map (fun w => (τ, LinOp.get w k r))).filterMap (fun e => f e.2) = []
+  | [] => rfl
+  | w :: ws => by simp [List.filterMap_cons, hf, filterMap_gets_nil f hf τ k r ws]
+
+/-- one step: what is appended to `lin`, projected to its SetMap resp. GetMap entries -/
+theorem lstep_lin_proj (f : LinOp → Option (K → Option V)) (hf : ∀ t k r, f (.get t k r) = none) (l : LSt) (a : Act) :
+    (lstep l a).lin.filterMap (fun e => f e.2) = l.lin.filterMap (fun e => f e.2) ++
+      (match a with
+       | .setMap m => (f (.set m)).toList
+       | .getMap => (f (.snap l.base.cache)).toList
+       | _ => []) := by
+  cases a with
+  | lookup t =>
+    simp only [lstep]
+    cases hp : l.base.pcs t <;> simp only [List.append_nil]
+    rename_i k
+    cases hc : l.base.cache k <;> simp only []
+    · cases hcl : l.base.calls k <;> simp
+    · simp [List.filterMap_append, hf]
+  | publish t r =>
+    simp only [lstep]
+    cases hp : l.base.pcs t <;> simp only [List.append_nil]
+    rename_i c k
+    simp [List.filterMap_append, List.filterMap_cons, hf, filterMap_gets_nil f hf]
+  | wake t =>
+    simp only [lstep]
+    cases hp : l.base.pcs t <;> simp only [List.append_nil]
+    rename_i c k
+    cases hr : l.base.results c <;> simp
+  | setMap m => simp [lstep, List.filterMap_append]; cases h : f (.set m) <;> simp [List.filterMap_cons, h]
+  | getMap => simp [lstep, List.filterMap_append]; cases h : f (.snap l.base.cache) <;> simp [List.filterMap_cons, h]
+
+theorem step_maps (s : St) (a : Act) : (step s a).maps = (match a with | .getMap => s.cache :: s.maps | _ => s.maps) := by
+  cases a with
+  | lookup t =>
+    simp only [step]
+    cases hp : s.pcs t <;> simp only []
+    rename_i k
+    cases hc : s.cache k <;> simp only []
+    cases hcl : s.calls k <;> rfl
+  | publish t r => simp only [step]; cases hp : s.pcs t <;> rfl
+  | wake t =>
+    simp only [step]
+    cases hp : s.pcs t <;> simp only []
+    rename_i c k
+    cases hr : s.results c <;> rfl
+  | setMap m => rfl
+  | getMap => rfl
+
+/-- the `snap` entries of the linearization are, in order, exactly what the executed GetMap calls returned (`base.maps`, newest
+    first), and the `set` entries are exactly the maps of the executed SetMap actions, in order -/
+theorem lin_snaps_sets : ∀ (as : List Act) (l : LSt),
+    l.lin.filterMap (fun e => e.2.snapOf) = l.base.maps.reverse →
+    (lrunFrom l as).lin.filterMap (fun e => e.2.snapOf) = (lrunFrom l as).base.maps.reverse ∧
+    (lrunFrom l as).lin.filterMap (fun e => e.2.setOf) = l.lin.filterMap (fun e => e.2.setOf) ++ as.filterMap Act.setOf
+  | [], l, h => ⟨h, by simp [lrunFrom]⟩
+  | a :: as, l, h => by
+    have h1 : (lstep l a).lin.filterMap (fun e => e.2.snapOf) = (lstep l a).base.maps.reverse := by
+      rw [lstep_lin_proj LinOp.snapOf (fun _ _ _ => rfl), lstep_base, step_maps, h]
+      cases a <;> simp [LinOp.snapOf]
+    obtain ⟨i1, i2⟩ := lin_snaps_sets as (lstep l a) h1
+    refine ⟨by simpa [lrunFrom] using i1, ?_⟩
+    have : (lrunFrom l (a :: as)) = lrunFrom (lstep l a) as := by simp [lrunFrom]
+    rw [this, i2, lstep_lin_proj LinOp.setOf (fun _ _ _ => rfl)]
+    cases a <;> simp [LinOp.setOf, Act.setOf, List.filterMap_cons]
+
 end Scalibr.Cache
